@@ -104,7 +104,7 @@ PROPS["C20"] = dict(
          "fault-free one (checked). Oracle per run: Execute returns a non-nil error, never (nil, nil); it returns (no deadlock, no step cap); no goroutine of the call is left "
          "(bubble stack dump); no panic. evaluations = simulated executions (fault-free + faulty); a case is non-trivial when at least one injected fault actually fired; "
          "distinct = distinct (statement, data, knobs)",
-    exhaustive_note="exhaustive only over (call position x mode) of each sampled statement, with j capped to five values per call",
+    exhaustive_note="exhaustive only over (call position x mode) of each sampled statement, with j capped to five values per call in the quick tier, every j <= delivered in the thorough tier",
     components_real=ENGINE_REAL,
     components_stub=["simulated storage driver (x/harness/simstore.go): gate + pacing + emission permutation + fault plan over the real memory store", "seeded scheduler in a synctest bubble"],
     assumptions=["the simulated driver honours the storage.Graph contract (closes the channel before returning, also on error)",
